@@ -7,3 +7,9 @@ import Abmarl.Props.C08
 #print axioms Abmarl.gymabs_reset_forgets
 #print axioms Abmarl.gymabs_reset_clears
 #print axioms Abmarl.stubFlat_forgets
+#print axioms Abmarl.C08_grid_reset_fresh
+#print axioms Abmarl.applyComps_decl
+#print axioms Abmarl.applyComp_decl
+#print axioms Abmarl.World.healthResetFrom_declared
+#print axioms Abmarl.World.orientResetFrom_declared
+#print axioms Abmarl.C03_reset_establishes
